@@ -9,6 +9,7 @@ pub fn run(ctx: &Ctx) -> Outcome {
     run_and_report(ctx, &tx_window(ctx.tier, false, 10, d), &mut out);
     run_and_report(ctx, &tx_slowstart(ctx.tier, ctx.tier.pick(7, 9)), &mut out);
     run_and_report(ctx, &tx_window_mtu(ctx.tier, ctx.tier.pick(6, 8)), &mut out);
+    run_and_report(ctx, &tx_slowstart_mtu(ctx.tier, ctx.tier.pick(6, 8)), &mut out);
     run_and_report(ctx, &rtx(ctx.tier, 5, true, ctx.tier.pick(6, 8)), &mut out);
     run_and_report(ctx, &rtx_after_recovery_rto(ctx.tier, ctx.tier.pick(6, 8)), &mut out);
     // the same sender with the congestion controller behind its tracing wrapper, over IPv6, and at the wrap
